@@ -62,11 +62,13 @@ Inductive found :=
 | FMissing (via : option (modfile * list modfile))    (* not on disk; Some: the imported top-level module has a __path__ *)
 | FFinderError (e : ferr).                             (* find_spec itself raises something else than ModuleNotFoundError *)
 
-Record world := mkWorld {
+Record world := mkWorldL {
   w_find : list (string * found);
   w_beh : list (name * behaviour);
   w_attr : list (name * string * option exn);   (* getattr(owner, part): listed with None = succeeds; unlisted = AttributeError *)
-  w_walk : list (name * exn) }.                 (* walking the imported object raises *)
+  w_walk : list (name * exn);                   (* walking the imported object raises *)
+  w_lazy : list name }.                         (* packages with a lazy module-level __getattr__: getattr(pkg, name) imports pkg.name *)
+Definition mkWorld f b a wk : world := mkWorldL f b a wk [].
 
 Fixpoint find_pkg (l : list (string * found)) (k : string) : found :=
   match l with [] => FMissing None | (k', f) :: r => if String.eqb k' k then f else find_pkg r k end.
@@ -186,14 +188,22 @@ Fixpoint dyn_attempts (w : world) (rev_parts : list string) (objparts : list str
   end.
 
 (* the for loop over the remaining object parts *)
-Fixpoint getattrs (w : world) (owner : name) (parts : list string) : exn + name :=
+(* the for loop over the remaining object parts -- inside the `with sys_path(...)` block: an attribute access may run code
+   (a lazy module __getattr__ importing the submodule again, after its direct import failed) *)
+Fixpoint getattrs (w : world) (owner : name) (parts : list string) (s : st) : (exn + name) * st :=
   match parts with
-  | [] => inr owner
+  | [] => (inr owner, s)
   | p :: r =>
       match lookup_attr (w_attr w) owner p with
-      | Some None => getattrs w (owner ++ [p]) r
-      | Some (Some x) => if caught_by getattr_catches x then inl getattr_raises else inl x
-      | None => if caught_by getattr_catches XAttributeError then inl getattr_raises else inl XAttributeError
+      | Some None => getattrs w (owner ++ [p]) r s
+      | Some (Some x) => (if caught_by getattr_catches x then inl getattr_raises else inl x, s)
+      | None =>
+          if mem_name owner (w_lazy w) then
+            match import_module w (owner ++ [p]) s with
+            | (None, s1) => getattrs w (owner ++ [p]) r s1
+            | (Some x, s1) => (if caught_by getattr_catches x then inl getattr_raises else inl x, s1)
+            end
+          else (if caught_by getattr_catches XAttributeError then inl getattr_raises else inl XAttributeError, s)
       end
   end.
 
@@ -201,7 +211,7 @@ Definition dynamic_import (w : world) (n : name) (paths : list path) (s : st) : 
   with_sys_path paths
     (fun s0 => match dyn_attempts w (rev n) [] s0 with
                | (inl x, s1) => (inl x, s1)
-               | (inr (m, objs), s1) => (getattrs w m objs, s1)
+               | (inr (m, objs), s1) => getattrs w m objs s1
                end) s.
 
 (* ------------------------------------------------------------------ Inspector.get_module, GriffeLoader._inspect_module *)
@@ -445,6 +455,8 @@ Definition executions (s : st) : list event := filter is_exec (log s).
 Definition inspections (s : st) : list event := filter is_inspect (log s).
 Definition wf (s : st) : Prop := cur s < next s.
 Definition init_state (sp : list path) : st := mkSt 0 1 (fun _ => sp) [] [].
+(* a process that imported things before: sys.modules is part of the initial state *)
+Definition init_state_with (sp : list path) (imported : list name) : st := mkSt 0 1 (fun _ => sp) imported [].
 (* the loader only ever reads source files itself (compiled files are at most handed to the import system) *)
 Definition read_ok (e : event) : bool := match e with EvRead _ sfx => source_suffix sfx | _ => true end.
 Definition reads_source_only (s : st) : Prop := forallb read_ok (log s) = true.
@@ -537,6 +549,9 @@ Definition dec_world (x : sexp) : option world :=
   | SList [fs; bs; ats; ws] =>
       do fs' <- as_list_of dec_find fs; do bs' <- as_list_of dec_beh bs; do ats' <- as_list_of dec_attr ats;
       do ws' <- as_list_of dec_walk ws; Some (mkWorld fs' bs' ats' ws')
+  | SList [fs; bs; ats; ws; lz] =>
+      do fs' <- as_list_of dec_find fs; do bs' <- as_list_of dec_beh bs; do ats' <- as_list_of dec_attr ats;
+      do ws' <- as_list_of dec_walk ws; do lz' <- as_list_of dec_name lz; Some (mkWorldL fs' bs' ats' ws' lz')
   | _ => None
   end.
 
@@ -601,12 +616,12 @@ Definition dec_hstep (x : sexp) : option hstep :=
 
 Definition run_C15 (x : sexp) : sexp :=
   match x with
-  | SList [SStr "history"; allow; force; store; given; world; steps; catch; syspath] =>
+  | SList [SStr "history"; allow; force; store; given; world; steps; catch; syspath; imported] =>
       (* one loader, several calls *)
       or_bad (do a <- as_bool allow; do f <- as_bool force; do st' <- as_bool store; do g <- as_list_of dec_path given;
               do w <- dec_world world; do hs <- as_list_of dec_hstep steps; do ct <- as_list_of as_str catch;
-              do ip <- as_list_of dec_path syspath;
-              let s0 := init_state ip in
+              do ip <- as_list_of dec_path syspath; do im <- as_list_of dec_name imported;
+              let s0 := init_state_with ip im in
               let (r, s) := run_history w a f st' (finder_paths g ip) ct hs s0 in
               Some (enc_outcome ip s0 r s))
   | SList [SStr "session"; allow; force; store; submodules; search; world; root; later; syspath] =>
@@ -616,11 +631,11 @@ Definition run_C15 (x : sexp) : sexp :=
               let s0 := init_state ip in
               let (r, s) := session w a f st' sm sp rt lt s0 in
               Some (enc_outcome ip s0 r s))
-  | SList [SStr "entry"; allow; force; store; phases; syspath] =>
+  | SList [SStr "entry"; allow; force; store; phases; syspath; imported] =>
       (* a call of a public entry point: the loaders it builds, with the options as it forwards them *)
       or_bad (do a <- as_bool allow; do f <- as_bool force; do st' <- as_bool store; do phs <- as_list_of dec_phase phases;
-              do ip <- as_list_of dec_path syspath;
-              let s0 := init_state ip in
+              do ip <- as_list_of dec_path syspath; do im <- as_list_of dec_name imported;
+              let s0 := init_state_with ip im in
               let (r, s) := run_phases a f st' phs s0 in
               Some (enc_outcome ip s0 r s))
   | SList [SStr "finder"; given; syspath] =>
